@@ -4,6 +4,7 @@ import (
 	"bufio"
 	"fmt"
 	"io"
+	"math/big"
 	"os"
 	"os/exec"
 	"strconv"
@@ -196,6 +197,18 @@ func (s *Solver) ref(t *Term) string {
 	if n, ok := s.emitted[t]; ok {
 		return n
 	}
+	if t.Op == OpBV2Int && t.Aux == 1 {
+		// signed interpretation of a bit-vector
+		x := t.Args[0]
+		xs := s.ref(x)
+		s.nextID++
+		name := "t!" + strconv.FormatInt(s.nextID, 10)
+		pow := new(big.Int).Lsh(big.NewInt(1), uint(x.W)).String()
+		s.send(fmt.Sprintf("(define-fun %s () Int (ite (bvslt %s %s) (- (bv2nat %s) %s) (bv2nat %s)))", name, xs, constSMT(BV(x.W, 0)), xs, pow, xs))
+		s.emitted[t] = name
+		s.lvlTerms[s.pushed] = append(s.lvlTerms[s.pushed], t)
+		return name
+	}
 	var sb strings.Builder
 	sb.WriteByte('(')
 	if t.Op == OpApp {
@@ -387,7 +400,16 @@ func parseValues(text string) []uint64 {
 		case c == '(':
 			depth++
 			i++
-			if depth == 3 && strings.HasPrefix(text[i:], "_ bv") {
+			if depth == 3 && strings.HasPrefix(text[i:], "- ") {
+				j := i + 2
+				k := j
+				for k < n && text[k] >= '0' && text[k] <= '9' {
+					k++
+				}
+				v, _ := strconv.ParseUint(text[j:k], 10, 64)
+				vals = append(vals, uint64(-int64(v)))
+				i = k
+			} else if depth == 3 && strings.HasPrefix(text[i:], "_ bv") {
 				j := i + 4
 				k := j
 				for k < n && text[k] >= '0' && text[k] <= '9' {
@@ -416,6 +438,14 @@ func parseValues(text string) []uint64 {
 				base = 2
 			}
 			v, _ := strconv.ParseUint(text[i+2:j], base, 64)
+			vals = append(vals, v)
+			i = j
+		case depth == 2 && c >= '0' && c <= '9' && i > 0 && text[i-1] == ' ':
+			j := i
+			for j < n && text[j] >= '0' && text[j] <= '9' {
+				j++
+			}
+			v, _ := strconv.ParseUint(text[i:j], 10, 64)
 			vals = append(vals, v)
 			i = j
 		case depth == 2 && strings.HasPrefix(text[i:], "true") && (i+4 >= n || text[i+4] == ')'):
